@@ -13,7 +13,7 @@ CASE_TIMEOUT = 2400
 REQUIRED_COUNTERS = ["templates_compared", "exhaustive_assignments_evaluated", "templates_with_partial_pruning_compared"]
 RULE = ("templates of single-Einsum specs and of the first/last Einsum of 2-Einsum specs (so that fused-loop symbols "
         "exist), metrics ENERGY / LATENCY / EDP / ENERGY|LATENCY, finite and infinite memories, zero tolerance, perfect "
-        "factorisation; three classes: small bounds, LARGE bounds (24..72: templates with >= 1000 partial assignments, "
+        "factorisation; classes: small bounds, LARGE3 (three levels, power-of-two bounds 32..128, both buffers binding), LARGE bounds (24..72: templates with >= 1000 partial assignments, "
         "the threshold above which the enumeration prunes partially enumerated assignments symbolically) and SPATIAL "
         "(a Container fanout with loop_bounds incl. product>= / >= forms). Wrappers on _make_tile_shapes / run_model / "
         "get_tile_shape_choices record, per template, the symbolic formulas, the fused (kept) symbols, the loop-count "
@@ -40,13 +40,26 @@ def gen_cases(tier, seed):
     n = 30 if tier == "quick" else 320
     cases = []
     for i in range(n):
-        cls = ["small", "small", "large", "spatial", "small", "large", "spatial_large", "small", "spatial"][i % 9]
+        cls = ["small", "large3", "large", "spatial", "small", "large", "spatial_large", "small", "spatial"][i % 9]
         if cls == "small":
             wk = rnd.choice(["mm1", "mm1", "mv1", "chain2", "mvchain2"])
             d = gs.gen_spec(rnd, wk, levels=2 if wk == "chain2" else rnd.choice([2, 2, 3]), size_class=rnd.choice(["inf", "generous", "tight", "tight"]))
             if wk in ("mm1", "mv1"):
                 for rv in d["workload"]["ranks"]:
                     d["workload"]["ranks"][rv] = rnd.choice([4, 6, 8, 9, 12, 2, 3])
+        elif cls == "large3":
+            # three levels, power-of-two bounds, both buffers binding: usage formulas are sums of products of an outer
+            # and an inner tile shape (s0*s1 + s0*s2 + s2*s3), so partially enumerated assignments carry terms whose
+            # unknown factors differ
+            wk = "mm1"
+            d = gs.gen_spec(rnd, wk, levels=3, size_class="tight", costs=rnd.choice(["tradeoff", "tradeoff", "random"]))
+            for rv in d["workload"]["ranks"]:
+                d["workload"]["ranks"][rv] = rnd.choice([32, 64, 128])
+            bits = d["workload"]["bits"]
+            m0, m1, m2 = d["arch"]["mems"]
+            m0.update(keep="All", may_keep="All")
+            m1.update(size=bits * rnd.choice([1024, 2048, 4096, 8192]), keep=rnd.choice(["Nothing", "Nothing", "Inputs"]), may_keep="All")
+            m2.update(size=bits * rnd.choice([32, 64, 128, 256]), keep=rnd.choice(["All", "All", "Nothing"]), may_keep="All")
         elif cls == "large":
             wk = rnd.choice(["mm1", "mv1", "mm1"])
             d = gs.gen_spec(rnd, wk, levels=2, size_class=rnd.choice(["inf", "tight", "tight"]))
@@ -92,7 +105,8 @@ def gen_cases(tier, seed):
                 sizes = sorted(gs.tensor_sizes(d["workload"]).values())
                 d["arch"]["mems"][1]["size"] = rnd.randint(max(8, sizes[0] // 4), max(16, sizes[-1])) * d["workload"]["bits"]
         cases.append({"class": cls + "/" + wk, "desc": d,
-                      "metrics": rnd.choice(["ENERGY", "LATENCY", "ENERGY_DELAY_PRODUCT", "ENERGY|LATENCY"]) if cls != "spatial_large" else "ENERGY",
+                      "metrics": rnd.choice(["ENERGY", "LATENCY", "ENERGY_DELAY_PRODUCT", "ENERGY|LATENCY"]) if cls not in ("spatial_large", "large3")
+                      else ("ENERGY" if cls == "spatial_large" else rnd.choice(["ENERGY", "ENERGY", "LATENCY"])),
                       "seed": rnd.randrange(2**31)})
     return cases
 
@@ -373,6 +387,7 @@ def run_case(case):
                  "frame_rows": R, "template": rec["tmpl"], "ranks": ranks}
             if lost_i is not None:
                 w["lost"] = {"assignment": {nm: int(sym_cols[nm][lost_i]) for nm in names}, "vector": [float(x) for x in V[lost_i]]}
+                w["frame"] = [{"assignment": {nm: int(rows_arr[j][i]) for i, nm in enumerate(names)}, "vector": [float(x) for x in rvals[j]]} for j in range(min(R, 3))]
             if bad_row is not None:
                 w["invalid_frame_row"] = {nm: int(rows_arr[bad_row][i]) for i, nm in enumerate(names)}
             viol.append({"sig": kind, "witness": w})
